@@ -271,6 +271,14 @@ class Result:
                         o = v["obs"]["ops"][i]
                     except IndexError:
                         break
+                    # the sponge schedules of spec/Transcript.tla against the logged sponge calls (honest calls)
+                    if not b.get("adv") and o.get("open") == "ok" and "spp" in m and "sp_shape_p" in o:
+                        self.schedule_checked = getattr(self, "schedule_checked", 0) + 1
+                        if "".join(m["spp"]) != "".join(o["sp_shape_p"]) or \
+                           (o["check"] not in ("skipped", "") and "".join(m["spv"]) != "".join(o["sp_shape_v"])):
+                            ps["drift"] += 1
+                            self.drift.append("%s %s op%d: sponge schedule differs from Transcript.tla: prover %s / %s, verifier %s / %s" % (
+                                sch, b.get("id"), i + 1, "".join(m["spp"]), "".join(o["sp_shape_p"]), "".join(m["spv"]), "".join(o["sp_shape_v"])))
                     obs_acc = o["check"] == "accept"
                     mod = m.get("res")
                     if mod in ("accept", "reject", "err", "panic") and o["check"] not in ("skipped", ""):
@@ -298,6 +306,8 @@ class Result:
                    models=self.models, per_scheme=self.per_scheme, skipped_not_applicable=self.skipped,
                    known_findings_hit=self.known_hits, drift=len(self.drift), drift_examples=self.drift[:5],
                    exhaustive=False)
+        if getattr(self, "schedule_checked", 0):
+            cov["sponge_schedules_compared"] = self.schedule_checked
         if extra_cov:
             cov.update(extra_cov)
         cov.update(self.extra)
